@@ -121,7 +121,7 @@ func TestC11(t *testing.T) {
 		g.Crons = []string{"* * * * *", "@every 1m", "*/2 * * * *", "@every 90s", "0 * * * * *"}
 		g.TimeoutDeltas = []int64{1000, 3000, 8000, 20000, 60000}
 		g.RouteOneIn = 2
-		g.W = map[string]int{"CreatePromise": 8, "CreatePromiseAndTask": 2, "CreateCallback": 3, "CreateSubscription": 3, "CompletePromise": 2, "AcquireLock": 3, "CreateSchedule": 3, "ClaimTask": 3, "HeartbeatTasks": 1}
+		g.W = map[string]int{"CreatePromise": 8, "CreatePromiseAndTask": 2, "CreateCallback": 4, "CreateSubscription": 3, "CompletePromise": 3, "AcquireLock": 3, "CreateSchedule": 3, "ClaimTask": 4, "HeartbeatTasks": 1}
 		s := New(d, BigConfig(), Profile{Permute: true, Hold: 8, Cut: 2, SendFail: 0}, dir)
 		g.Dispatched = func() [][2]any {
 			var out [][2]any
@@ -138,6 +138,9 @@ func TestC11(t *testing.T) {
 					// scheduled promises must not become overdue within the horizon: otherwise firing schedules are a
 					// sustained source of new work whose rate may legitimately exceed a batch size of one per cycle
 					rq.CreateSchedule.PromiseTimeout = 3600_000
+				}
+				if rq.Kind == t_api.ClaimTask && d.Bool("longlease") {
+					rq.ClaimTask.Ttl = 3600_000 // a holder with a long lease: only the task's own timeout can end it
 				}
 				s.Submit(rq)
 			}
@@ -174,7 +177,7 @@ func TestC11(t *testing.T) {
 		// ---- failure phase ----
 		fcycles := d.Int(0, 3, "failcycles")
 		if fcycles > 0 {
-			s.Prof.FailBefore, s.Prof.FailAfter, s.Prof.RouterFail, s.Prof.SendFail, s.Prof.SendLose = 4, 5, 4, 3, 6
+			s.Prof.FailBefore, s.Prof.FailAfter, s.Prof.RouterFail, s.Prof.SendFail, s.Prof.SendLose = 4, 5, 4, 8, 6
 			s.Prof.Hold = 4
 			for i := 0; i < fcycles; i++ {
 				cycle()
@@ -200,10 +203,21 @@ func TestC11(t *testing.T) {
 				roots[tk.S("root_promise_id")] = true
 			}
 		}
+		for _, cb := range start["callbacks"] { // registrations become tasks when their promise times out during the run
+			roots[cb.S("root_promise_id")] = true
+		}
 		// unclaimed tasks are re-dispatched for ever (enqueued -> lease end -> init -> ...): that is sustained work; the
 		// statement's bound is only demanded when one batch can hold every root, otherwise only starvation is looked for
 		tasksFit := len(roots) <= cfg.TaskBatchSize
-		bound := ceil(b.overduePromises, cfg.PromiseBatchSize) + ceil(b.expiredTasks, cfg.TaskBatchSize) + ceil(b.dispatchable, cfg.TaskBatchSize) +
+		pending := 0
+		for _, pr := range start["promises"] {
+			if pr.I("state") == pPending {
+				pending++
+			}
+		}
+		promiseLag := ceil(max(1, pending), cfg.PromiseBatchSize) + 1
+		taskLag := ceil(max(1, len(roots)), cfg.TaskBatchSize) + 2
+		bound := ceil(pending, cfg.PromiseBatchSize) + ceil(b.expiredTasks, cfg.TaskBatchSize) + ceil(b.dispatchable, cfg.TaskBatchSize) +
 			ceil(catchup*max(1, nSched), cfg.ScheduleBatchSize) + 8
 		taskBound := 4
 		if !tasksFit {
@@ -211,16 +225,33 @@ func TestC11(t *testing.T) {
 		}
 		schedLag := ceil(max(1, nSched), cfg.ScheduleBatchSize) + 1
 		dispatchRun := map[string]int{}
+		idle := map[string]int{} // background coroutine -> consecutive cycles without a new instance
 		converged := -1
 		times := []int64{s.Now}
 		at := func(lag int) int64 { return times[max(0, len(times)-1-lag)] }
-		for k := 1; k <= bound+4; k++ {
+		for k := 1; k <= bound+6; k++ {
 			if !cycle() {
 				add("settle", "", "cycle %d: background work did not settle within 4000 ticks (config %s)", k, cfg)
 				break
 			}
+			// every background coroutine starts a new instance in every cycle (each instance begins with a store read)
+			cycleStart := times[len(times)-1]
+			for _, name := range s.Prof.Bg {
+				ran := false
+				for i := len(s.Txs) - 1; i >= 0 && s.Txs[i].Tick > cycleStart; i-- {
+					if s.Txs[i].Name == name {
+						ran = true
+						break
+					}
+				}
+				if ran {
+					idle[name] = 0
+				} else if idle[name]++; idle[name] >= 3 {
+					add("stuck", "", "background coroutine %s has not started a new instance for %d cycles: its previous instance never finished (config %s)", name, idle[name], cfg)
+				}
+			}
 			sn := s.Snaps[s.CurSnap()]
-			bad := quiescent(sn, refTimes{promises: at(1), locks: at(1), schedules: at(schedLag), tasks: at(2)}, tasksFit)
+			bad := quiescent(sn, refTimes{promises: at(promiseLag), locks: at(1), schedules: at(schedLag), tasks: at(taskLag)}, tasksFit)
 			times = append(times, s.Now)
 			cur := map[string]bool{}
 			for _, id := range dispatchableTasks(sn, s.Now) {
@@ -246,16 +277,18 @@ func TestC11(t *testing.T) {
 			if len(bad) == 0 && converged < 0 {
 				converged = k
 			}
-			if len(bad) > 0 && converged >= 0 {
-				add("regress", "", "quiescence reached at cycle %d was lost at cycle %d: %v (config %s)", converged, k, bad, cfg)
-				break
+			if len(bad) > 0 {
+				// new work keeps arriving while the clock advances (promises reach their deadline, schedules their
+				// next occurrence, unclaimed tasks their lease end): a momentarily satisfied predicate is not
+				// convergence; what is demanded is that from the bound on every predicate holds with its lag
+				converged = -1
 			}
 			if k >= bound && len(bad) > 0 {
 				sort.Strings(bad)
 				add("bound", "", "after %d cycles (bound %d for backlog %+v, config %s, background order %v): %v", k, bound, b, cfg, s.Prof.Bg, bad)
 				break
 			}
-			if converged >= 0 && k >= converged+3 {
+			if converged >= 0 && k >= bound+3 {
 				break
 			}
 		}
